@@ -75,6 +75,13 @@ var arrKinds = []arrKind{
 		func(a *array.I64) *array.Base { return &a.Base }, func() *array.I64 { return &array.I64{} }, func(a *array.I64) bool { return a == nil }),
 }
 
+// defined element types for the generic array
+type defU16 uint16
+type defU32 uint32
+type defU64 uint64
+type defI32 int32
+type defArr [2]uint16
+
 func maskTo(v uint64, size int) uint64 {
 	if size >= 8 {
 		return v
@@ -508,6 +515,79 @@ func runC16(ctx *Ctx, idx int) {
 			viol("struct-array-failed", map[string]interface{}{"panic": fmt.Sprint(pv), "error": fmt.Sprint(err), "stack": stack})
 		}
 	}
+	// defined (named) element types through the generic array: what Get hands
+	// back must be the element that was stored - same dynamic type, same value -
+	// before and after a round trip
+	if idx%6 == 3 && n > 0 {
+		checkDefined := func(name string, elts interface{}, zero interface{}) {
+			var err error
+			pv, stack := try(func() {
+				var a, l *array.Array
+				a, err = array.New(ixs, elts)
+				if err != nil {
+					return
+				}
+				var d []byte
+				if d, err = proto.Marshal(a); err != nil {
+					return
+				}
+				if l, err = array.NewEmpty(zero); err != nil {
+					return
+				}
+				if err = proto.Unmarshal(d, l); err != nil {
+					return
+				}
+				rv := reflect.ValueOf(elts)
+				for j := 0; j < n && j < 500; j++ {
+					want := rv.Index(j).Interface()
+					for which, arr := range []*array.Array{a, l} {
+						got, ok := arr.Get(ixs[j])
+						if !ok || reflect.TypeOf(got) != reflect.TypeOf(want) || !reflect.DeepEqual(got, want) {
+							viol("defined-type-wrong-answer", map[string]interface{}{"element_type": name, "index": ixs[j], "after_roundtrip": which == 1,
+								"found": ok, "got": fmt.Sprintf("%T(%v)", got, got), "want": fmt.Sprintf("%T(%v)", want, want)})
+							return
+						}
+					}
+				}
+				ctx.Count("arrays:defined_element_types", 1)
+			})
+			if pv != nil || err != nil {
+				viol("defined-type-array-failed", map[string]interface{}{"element_type": name, "panic": fmt.Sprint(pv), "error": fmt.Sprint(err), "stack": stack})
+			}
+		}
+		switch (idx / 6) % 5 {
+		case 0:
+			e := make([]defU16, n)
+			for i := range e {
+				e[i] = defU16(vals[i])
+			}
+			checkDefined("defU16", e, defU16(0))
+		case 1:
+			e := make([]defU32, n)
+			for i := range e {
+				e[i] = defU32(vals[i])
+			}
+			checkDefined("defU32", e, defU32(0))
+		case 2:
+			e := make([]defU64, n)
+			for i := range e {
+				e[i] = defU64(vals[i])
+			}
+			checkDefined("defU64", e, defU64(0))
+		case 3:
+			e := make([]defI32, n)
+			for i := range e {
+				e[i] = defI32(vals[i])
+			}
+			checkDefined("defI32", e, defI32(0))
+		case 4:
+			e := make([]defArr, n)
+			for i := range e {
+				e[i] = defArr{uint16(vals[i]), uint16(vals[i] >> 16)}
+			}
+			checkDefined("defArr", e, defArr{})
+		}
+	}
 	emptyWords := 0
 	for _, w := range base.Bitmaps {
 		if w == 0 {
@@ -532,7 +612,7 @@ func runC16(ctx *Ctx, idx int) {
 func init() {
 	register(&CheckDef{
 		ID: "C16", Level: "exploration",
-		Rule: "case = (array type U16/U32/U64/I16/I32/I64, ascending index set in [0,2^20) - empty, single, dense, holes, sparse with empty 64-bit words, clusters, word boundaries, top of range - and full-range elements); oracle: a Go map compared at every index of the bitmap span (spans <= 2^16) or all present indexes, their neighbours and 10^4 random probes, through the typed accessor, Base.GetBytes, array.New and NewEmpty+Init generic accessors, and after proto round trips into the typed and the generic type (and generic -> typed); re-marshal reproduces the bytes; struct elements through the generic array; an equal and a descending neighbour at every position of lists of <=16 indexes (4 seeded positions of longer ones) and length mismatches of +1, -1 and a seeded amount are rejected with ErrIndexNotAscending / ErrIndexLen (by identity) and a nil array; a rejected Init called directly leaves a fresh value empty (Cnt, bitmap, offsets, elements) and an array in use byte-identical; non-trivial = at least 2 elements",
+		Rule: "case = (array type U16/U32/U64/I16/I32/I64, ascending index set in [0,2^20) - empty, single, dense, holes, sparse with empty 64-bit words, clusters, word boundaries, top of range - and full-range elements); oracle: a Go map compared at every index of the bitmap span (spans <= 2^16) or all present indexes, their neighbours and 10^4 random probes, through the typed accessor, Base.GetBytes, array.New and NewEmpty+Init generic accessors, and after proto round trips into the typed and the generic type (and generic -> typed); re-marshal reproduces the bytes; struct elements and defined (named) integer/array element types through the generic array (same dynamic type and value before and after a round trip); an equal and a descending neighbour at every position of lists of <=16 indexes (4 seeded positions of longer ones) and length mismatches of +1, -1 and a seeded amount are rejected with ErrIndexNotAscending / ErrIndexLen (by identity) and a nil array; a rejected Init called directly leaves a fresh value empty (Cnt, bitmap, offsets, elements) and an array in use byte-identical; non-trivial = at least 2 elements",
 		NumCases: func(tier string) int {
 			if tier == "thorough" {
 				return 40000
@@ -542,7 +622,7 @@ func init() {
 		Run:           runC16,
 		MinNontrivial: func(tier string) int { return 500 },
 		Gates: shapeGates("type:U16", "type:U32", "type:U64", "type:I16", "type:I32", "type:I64", "arrays:all_indexes_probed", "arrays:with_empty_words", "arrays:empty", "arrays:single",
-			"arrays:struct_elements", "rejected:ErrIndexNotAscending:equal", "rejected:ErrIndexNotAscending:descending", "rejected:ErrIndexLen", "invalid:every_position_lists", "rejected_init_leaves_fresh_value_empty", "rejected_init_leaves_used_array_untouched", "probes:typed-after-roundtrip", "probes:generic-after-roundtrip"),
+			"arrays:struct_elements", "arrays:defined_element_types", "rejected:ErrIndexNotAscending:equal", "rejected:ErrIndexNotAscending:descending", "rejected:ErrIndexLen", "invalid:every_position_lists", "rejected_init_leaves_fresh_value_empty", "rejected_init_leaves_used_array_untouched", "probes:typed-after-roundtrip", "probes:generic-after-roundtrip"),
 		Assumptions: []string{"probes stay inside the bitmap span, as the statement says"},
 	})
 }
